@@ -3,6 +3,7 @@ package main
 import (
 	"fmt"
 	"go/token"
+	"go/types"
 	"sort"
 	"strings"
 
@@ -538,5 +539,83 @@ func recordedHostsReadBack(c *Ctx, rule string) {
 	}
 	if n < 1 {
 		c.Unresolved(rule, "host lists passed to pkg/configmanager from pkg/upstream/cluster")
+	}
+}
+
+// c12RecordOnlyOnSuccess (R8): a rejected update leaves the stored configuration alone.
+// The stored configuration is what the dump (and a restart from it) reproduces; the live objects are what serves traffic.
+// An update call that fails keeps the old live object - so it must also keep the old stored entry. Clause: in every
+// update function of the router manager, the cluster manager and the listener handler that reports an error, no
+// recorder (configmanager.Set*) has run on a path that ends in a non-nil error: no CFG path leads from a recorder call to
+// an error return, and a recorder is never deferred (a deferred call runs on the error returns as well).
+func c12RecordOnlyOnSuccess(c *Ctx) {
+	n := 0
+	ord := ordCounter{}
+	isRecorder := func(cc *ssa.CallCommon) bool {
+		f := cc.StaticCallee()
+		return f != nil && f.Pkg != nil && strings.HasSuffix(f.Pkg.Pkg.Path(), "pkg/configmanager") && strings.HasPrefix(f.Name(), "Set")
+	}
+	for _, pkg := range []string{"pkg/router", "pkg/upstream/cluster", "pkg/server"} {
+		for _, fn := range c.PkgFuncs(pkg) {
+			res := fn.Signature.Results()
+			if res.Len() == 0 || !types.Identical(res.At(res.Len()-1).Type(), types.Universe.Lookup("error").Type()) {
+				continue
+			}
+			// error exits: return sites whose error value is not the constant nil
+			var errExits []ssa.Instruction
+			for _, rs := range returnSites(fn, res.Len()-1) {
+				if isNilConst(rs.val) {
+					continue
+				}
+				// `return err` under a dominating err == nil test is not an error exit
+				nilHere := false
+				for _, g := range guardsAt(rs.at.Block()) {
+					if bo, ok := g.Cond.(*ssa.BinOp); ok && isNilConst(bo.Y) && bo.X == rs.val {
+						if (bo.Op == token.EQL && g.True) || (bo.Op == token.NEQ && !g.True) {
+							nilHere = true
+						}
+					}
+				}
+				if !nilHere {
+					errExits = append(errExits, rs.at)
+				}
+			}
+			forEachInstr(fn, false, func(f *ssa.Function, in ssa.Instruction) {
+				ci, ok := in.(ssa.CallInstruction)
+				if !ok || !isRecorder(ci.Common()) {
+					return
+				}
+				n++
+				key := ord.next(f, "recorded-only-on-success")
+				if _, isDefer := in.(*ssa.Defer); isDefer {
+					// runs at every exit executed after the defer statement
+					for _, e := range errExits {
+						e := e
+						if existsPath(f, in, func(x ssa.Instruction) bool { return x == e }, nil) != nil {
+							c.Fail("C12.R8", key, in.Pos(), fmt.Sprintf("%s is deferred in %s and therefore also runs when the update is rejected (error exit at %s): the live object stays the old one while the stored configuration - what the dump and a restart reproduce - becomes the rejected one", ci.Common().StaticCallee().Name(), f.Name(), shortPos(c, e.Pos())))
+							return
+						}
+					}
+					c.Check("C12.R8", key, in.Pos(), true, "deferred, but no error exit follows the defer statement", "")
+					return
+				}
+				var bad ssa.Instruction
+				for _, e := range errExits {
+					e := e
+					if existsPath(f, in, func(x ssa.Instruction) bool { return x == e }, nil) != nil {
+						bad = e
+						break
+					}
+				}
+				why := ""
+				if bad != nil {
+					why = shortPos(c, bad.Pos())
+				}
+				c.Check("C12.R8", key, in.Pos(), bad == nil, fmt.Sprintf("no error exit of %s is reachable after the recorder (%d error exits)", f.Name(), len(errExits)), fmt.Sprintf("%s in %s can be followed by an error return (%s): the update is reported as rejected but the stored configuration - what the dump and a restart reproduce - has already been replaced", ci.Common().StaticCallee().Name(), f.Name(), why))
+			})
+		}
+	}
+	if n < 4 {
+		c.Unresolved("C12.R8", "recorder calls in update functions that return an error (expected at least 4)")
 	}
 }
